@@ -408,3 +408,11 @@ func init() {
 		return tuple{h, iface{}}
 	})
 }
+
+// ---- identifiers drawn from crypto/rand: a fresh deterministic string per call ----
+func init() {
+	registerIntrinsic("k8s.io/apimachinery/pkg/util/uuid.NewUUID", func(i *interpreter, fr *frame, fn *ssa.Function, a []value) value {
+		i.ctx.uuidSeq++
+		return fmt.Sprintf("00000000-0000-4000-8000-%012d", i.ctx.uuidSeq)
+	})
+}
